@@ -80,6 +80,9 @@ func typedDatum(t string, n float64, s string, b bool) xpath.Datum {
 	return xpath.NewBoolDatum(b)
 }
 
+// curGen: registrations so far in the behaviour being replayed (the variable gen of XPathFuncs.tla)
+var curGen int
+
 func makeInfo(fi FInfo) xpath.CustomFunctionInfo {
 	var args []xpath.DatumTypeChecker
 	for _, a := range fi.Args {
@@ -94,6 +97,12 @@ func makeInfo(fi FInfo) xpath.CustomFunctionInfo {
 		}
 	case "arg":
 		fn = func(a []xpath.Datum) xpath.Datum { return a[0] }
+	case "ext":
+		// consults state outside the data tree: the number of registrations so far (curGen), at the time of the call
+		fn = func([]xpath.Datum) xpath.Datum {
+			g := curGen
+			return typedDatum(fi.Ret, float64(g), fmt.Sprintf("g%d", g), g%2 == 1)
+		}
 	case "partial":
 		// BadArg of XPathFuncs.tla: fails on the empty string / NaN / false, echoes every other operand
 		fn = func(a []xpath.Datum) xpath.Datum {
@@ -210,6 +219,7 @@ func funcsCmd(args []string) {
 			}
 			nbeh++
 			xpath.VerifResetFunctionTable()
+			curGen = 0
 			machines := map[int]*xpath.Machine{}
 			report := func(i int, what string, want, got interface{}) {
 				nmism++
@@ -219,6 +229,7 @@ func funcsCmd(args []string) {
 				nsteps++
 				switch st.A {
 				case "reg":
+					curGen++
 					var tbl []xpath.CustomFunctionInfo
 					for _, fi := range st.Infos {
 						tbl = append(tbl, makeInfo(fi))
